@@ -174,6 +174,9 @@ std::string op_print(const Op &o)
         case OP_QAPI:
                 s << "qapi " << o.a;
                 break;
+        case OP_TRIGCB:
+                s << "trigcb " << o.a << " " << o.b << " " << o.c << " " << o.d;
+                break;
         case OP_PUMP:
                 s << "pump " << o.a << " " << o.b << " " << o.c << " " << o.d;
                 break;
@@ -438,6 +441,9 @@ bool plan_parse(const std::string &text, Plan &p, std::string &err)
                         } else if (w == "qapi") {
                                 o.kind = OP_QAPI;
                                 ls >> o.a;
+                        } else if (w == "trigcb") {
+                                o.kind = OP_TRIGCB;
+                                ls >> o.a >> o.b >> o.c >> o.d;
                         } else if (w == "pump") {
                                 o.kind = OP_PUMP;
                                 ls >> o.a >> o.b >> o.c >> o.d;
@@ -503,6 +509,10 @@ bool plan_valid(const Plan &p, std::string &why)
                 return bad("no registered command");
         if (p.cmd_cap() * 4 < nreg)
                 return bad("capacity < ceil(commands/4)");
+        bool input_has_qmark = false;
+        for (auto &o : p.ops)
+                if (o.kind == OP_IN && o.data.find('?') != std::string::npos)
+                        input_has_qmark = true;
         std::vector<int> per_group(p.groups.size(), 0);
         bool empty_ev = false, empty_cmd = false;
         for (size_t i = 0; i < p.cmds.size(); i++) {
@@ -520,8 +530,15 @@ bool plan_valid(const Plan &p, std::string &why)
                         return bad("implicit write with read/run/test handler");
                 if (c.var_null && !c.vars.empty())
                         return bad("varnull with vars");
-                if (c.ev && c.registered && !c.disable && p.prop != "C03R")
+                // an event source may be addressed by the input only if no line can ask it for a READ or TEST response
+                // (no '?' anywhere in the input): the command side then emits nothing but result codes
+                if (c.ev && c.registered && !c.disable && p.prop != "C03R" && input_has_qmark)
                         return bad("event source reachable from the input (units would not be attributable)");
+                // ... and only if no line can change what its events print (the model formats an event when it is accepted)
+                if (c.ev && c.registered && !c.disable && p.prop != "C03R")
+                        for (auto &v : c.vars)
+                                if (v.access != ACC_RO)
+                                        return bad("reachable event source with a writable variable (its event text would depend on when the line is parsed)");
                 for (auto &v : c.vars) {
                         if (v.type < 0 || v.type > 4)
                                 return bad("var type");
@@ -544,7 +561,7 @@ bool plan_valid(const Plan &p, std::string &why)
                                         return bad("script trigger on a command that is not an event source");
                                 if (s.act == A_TRIG && c.ev)
                                         return bad("event handler triggering events (unbounded)");
-                                if (s.code == RC_HOLD && c.ev && p.prop != "C03R")
+                                if (s.code == RC_HOLD && c.ev && (k == K_READ || k == K_TEST) && p.prop != "C03R")
                                         return bad("HOLD returned by an event source (outside every property)");
                                 if ((s.act == A_SETTEXT || s.act == A_APPEND) && (k == K_WRITE || k == K_RUN))
                                         return bad("text action in write/run script");
@@ -600,6 +617,14 @@ bool plan_valid(const Plan &p, std::string &why)
                                 return bad("flag flip on an event source");
                         if (o.a == 1 && (o.b < 0 || o.b >= (int64_t)p.groups.size()))
                                 return bad("flag group");
+                        break;
+                case OP_TRIGCB:
+                        if (o.a < 0 || o.a >= (int64_t)p.cmds.size() || (o.b != CT_READ && o.b != CT_TEST) || (o.c != 0 && o.c != 1) || o.d < 0 || o.d > 100000)
+                                return bad("trigcb op");
+                        if (!p.cmds[(size_t)o.a].ev && p.prop != "C03R")
+                                return bad("trigger on a command that is not an event source");
+                        if ((p.prop == "C12" || p.prop == "C20"))
+                                return bad("callback-placed trigger in a twin-run plan (its position depends on the schedule)");
                         break;
                 case OP_PUMP:
                         if (o.a < 0 || o.a >= (int64_t)p.cmds.size() || (o.b != CT_READ && o.b != CT_TEST) || o.c < 0 || o.c > 200000 || o.d < 1 || o.d > 16)
